@@ -24,10 +24,11 @@ SUPPLIERS = {"interp-float": lambda x, y: (lambda t: float(np.interp(t, x, y))),
              # one-point-at-a-time kernel smoother (a ratio of two sums) are all legal sampling functions
              "constant": lambda x, y: (lambda t: 3.0),
              "scalar-only": lambda x, y: (lambda t: math.sin(t) + float(y[0])),
-             "kernel": lambda x, y: (lambda t: float(np.sum(np.exp(-(np.asarray(x, dtype=float) - t) ** 2) * np.asarray(y, dtype=float))
-                                                    / np.sum(np.exp(-(np.asarray(x, dtype=float) - t) ** 2)))),
-             "kernel-0d": lambda x, y: (lambda t: np.sum(np.exp(-np.abs(np.asarray(x, dtype=float) - np.mean(t))) * np.asarray(y, dtype=float))
-                                        / np.sum(np.exp(-np.abs(np.asarray(x, dtype=float) - np.mean(t)))))}
+             # (weights 1 / (1 + d^2): they never underflow, so the function is finite for every abscissa image)
+             "kernel": lambda x, y: (lambda t: float(np.sum(np.asarray(y, dtype=float) / (1.0 + (np.asarray(x, dtype=float) - t) ** 2))
+                                                    / np.sum(1.0 / (1.0 + (np.asarray(x, dtype=float) - t) ** 2)))),
+             "kernel-0d": lambda x, y: (lambda t: np.sum(np.asarray(y, dtype=float) / (1.0 + np.abs(np.asarray(x, dtype=float) - np.mean(t))))
+                                        / np.sum(1.0 / (1.0 + np.abs(np.asarray(x, dtype=float) - np.mean(t)))))}
 
 
 def bounds(tier, seed):
